@@ -1,6 +1,7 @@
 package nc
 
 import (
+	"fmt"
 	"go/types"
 	"reflect"
 	"sort"
@@ -567,7 +568,8 @@ func (c *Ctx) c14Prefixes() {
 		// every success return is cut by prefix == constant, and both base64 alphabets are tried
 		prefix := &Cond{Name: "prefix == " + v.prefix, Match: func(f *Fact, _ *Origins) bool {
 			if f.Kind == "cmp" && f.Pos && f.Op.String() == "==" && isConst(f.B, "\""+v.prefix+"\"") {
-				return f.A.K == "slice" && isConst(f.A.Args[2], "6")
+				return f.A.K == "slice" && (isConst(f.A.Args[2], fmt.Sprint(len(v.prefix))) || f.A.Args[2].String() == "len(#\""+v.prefix+"\")") &&
+					(f.A.Args[1] == nil || f.A.Args[1].K == "none" || isConst(f.A.Args[1], "0"))
 			}
 			return f.Kind == "bool" && f.Pos && isCall(f.A, "strings.HasPrefix") && isConst(arg(f.A, 1), "\""+v.prefix+"\"")
 		}}
